@@ -308,7 +308,8 @@ def save(outf, obj):
             return
 
     if hasattr(obj, '_save'):
-        obj._save(outf)
+        # under the name load looks for
+        obj._save(default_extension(outf))
     elif hasattr(obj, 'to_dataset'):
         obj=obj.copy()
         if obj.name is None:
